@@ -44,6 +44,7 @@ def check_grid(ctx, case):
     grid, cs, rem = case["grid"], case["cs"], case["rem"]
     svs, sizes = spec_for(grid, cs, rem)
     tb = morton.total_bits(grid)
+    check_shared_list(ctx, svs, grid)
     seen = {}
     for pos in itertools.product(*[range(g) for g in grid]):
         try:
@@ -87,6 +88,25 @@ def check_grid(ctx, case):
         ctx.fail("grid %s: grid coordinates %s accepted -> id %d" % (
             grid, bad, int(got)))
     return len(seen)
+
+
+def check_shared_list(ctx, svs, grid):
+    """compressed_morton_code called with ONE list object that the caller
+    advances in place from position to position (a loop variable)."""
+    pos = [0, 0, 0]
+    last = [min(g - 1, 3) for g in grid]
+    for x in range(last[0] + 1):
+        for y in range(last[1] + 1):
+            for z in range(last[2] + 1):
+                pos[0], pos[1], pos[2] = x, y, z
+                got = int(svs.compressed_morton_code(pos))
+                exp = morton.compressed_morton_code((x, y, z), grid)
+                if got != exp:
+                    ctx.fail("grid %s position %s passed as a list that is "
+                             "updated in place: id %d, specification gives %d"
+                             % (grid, [x, y, z], got, exp))
+                if pos != [x, y, z]:
+                    ctx.fail("compressed_morton_code modified its argument")
 
 
 def check_rejected(ctx, svs, cc, what):
